@@ -14,7 +14,7 @@ def add_query(H, Q, logs, q, b, k, t, i, entry, label, tier, timeout=600):
     name = '%s_%s_q%db%dk%dt%di%d' % (label, 'log' if logs else 'span', q, b, k, t, i)
     Q.append(dict(name=name, harness=tag, entry=entry, unwind=14, unwindset=BATCH_US, rec_unwind=3, timeout=timeout, tier=tier,
                   shape='%s: max_queue_size %d, max_export_batch_size %d, %d records produced first, ticket history %s, interference inside the exporter: %s' % (
-                      'BatchLogRecordProcessor' if logs else 'BatchSpanProcessor', q, b, k, ('ForceFlush never used', 'earlier flush completed', 'one flush outstanding')[t], ('none', 'producer call during the first Export', 'producer call + flush ticket during the first Export', 'producer call + flush ticket during the exporter ForceFlush', 'flush ticket during the first Export', 'producer + ticket during the first Export and during the exporter ForceFlush')[i])))
+                      'BatchLogRecordProcessor' if logs else 'BatchSpanProcessor', q, b, k, ('ForceFlush never used', 'earlier flush completed', 'one flush outstanding')[t], ('none', 'producer call during the first Export', 'producer call + flush ticket during the first Export', 'producer call + flush ticket during the exporter ForceFlush', 'flush ticket during the first Export', 'producer + ticket during the first Export and during the exporter ForceFlush', 'a second thread may call Shutdown during the first Export')[i])))
 
 def add_ff_query(H, Q, logs, q, b, k, wmode, toclass, tier, timeout=600):
     tag = 'b_%s_q%db%dk%d_w%dto%d' % ('log' if logs else 'span', q, b, k, wmode, toclass)
